@@ -1,6 +1,7 @@
 import Feox.Fmt.JournalRT
 import Feox.Fmt.Lemmas
 import Feox.Fmt.Recover
+import Feox.Fmt.RepCheck
 /-!
 # C10 — the device file follows the documented v1/v2/v3 layout
 
@@ -518,5 +519,46 @@ theorem journal_slot_selection (s0 s1 : Bytes) (total : Nat) (A B : JournalState
     (allZero s1 = false → decodeSlot s1 total 1 = .invalid → decodeJournal (s0 ++ s1) total = .ok A) ∧
     (allZero s1 = true → decodeJournal (s0 ++ s1) total = .ok A) :=
   decodeJournal_two_slots s0 s1 total A B h0 h1 hz0 hA
+
+/-! ## the independent reader on a file that represents a tiling (`Fmt.Abstract`, `Fmt.RepCheck`) -/
+
+/-- **An independent reader of a flushed file finds exactly the live keys.**  If the device file
+represents a tiling of its data area by exactly the records of an index (`Fmt.repTiledB`, decided on
+every file the real store flushes and closes in the correspondence runs, with the store's own
+index), the recovery scan of the documented layout accepts exactly those records and ends with
+the newest generation of each key. -/
+theorem reader_finds_exactly_the_index {img : Image} {v lo total : Nat} {lives : List Live}
+    {o : Opts} {journal : List (Nat × Nat)} (hro : o.readOnly = false)
+    (h : repTiledB img v lo total lives = true) :
+    ∃ L, L.length = lives.length ∧ ∀ st, GoodOutcome (infoOf lives) L st (scan img v total o journal lo st) := by
+  obtain ⟨L, _, hlen, hscan⟩ := repTiled_sound (o := o) (journal := journal) hro h
+  exact ⟨L, hlen, hscan⟩
+
+/-- non-vacuity of `Rep` / `TiledBy`: a blank data area represents the all-free disk, which is
+tiled by no record (what a fresh device is) -/
+theorem blank_data_area_represents_free {img : Image} {v lo total : Nat} {info : Feox.Proto.Gen → RecMeta}
+    (hz : ∀ p, lo ≤ p → p < total → blockAt img p = zeros BSZ) :
+    Rep img v lo total info (fun _ => Feox.Proto.Blk.zero) ∧
+    Feox.Proto.TiledBy (fun _ => Feox.Proto.Blk.zero) total [] lo := by
+  constructor
+  · intro p h1 h2
+    simp only [LooksFree, hz p h1 h2, zeros_length, true_and]
+    have hn := zero_is_neither BSZ
+    refine ⟨?_, hn.2⟩
+    have h1 := hn.1
+    unfold isMarkerTag at h1
+    intro heq
+    rw [heq] at h1
+    simp [BSZ, FEOX_BLOCK_SIZE] at h1
+  · have : ∀ n p, total - p ≤ n → Feox.Proto.TiledBy (fun _ => Feox.Proto.Blk.zero) total [] p := by
+      intro n
+      induction n with
+      | zero => intro p hp; exact Feox.Proto.TiledBy.done (by omega)
+      | succ n ih =>
+        intro p hp
+        by_cases hge : total ≤ p
+        · exact Feox.Proto.TiledBy.done hge
+        · exact Feox.Proto.TiledBy.free (by omega) (Or.inl rfl) (by intro r hr; cases hr) (ih (p + 1) (by omega))
+    exact this (total - lo) lo (Nat.le_refl _)
 
 end Feox.C10
